@@ -177,4 +177,33 @@ def step (s : St) : Op → St
 
 def run (s : St) (ops : List Op) : St := ops.foldl step s
 
+/-! ### the registry changed behind `Recency`'s back
+
+`Registry::delete_counter|gauge|histogram` and `Registry::clear` are public (`metrics-util/src/registry/mod.rs`) and
+know nothing of `Recency`; `Recency` has no operation that forgets an entry.  A second observer (another thread
+inside `get_recent_metrics`: `PrometheusHandle` is `Clone`, `render(&self)`) takes its handle snapshot
+(`get_*_handles()`) before the first one's deletions and later calls `should_store_*` with the generation of a
+handle whose storage is no longer registered.  `XOp` adds these three to the histories. -/
+inductive XOp
+  | base (op : Op)
+  | del (k : Kind) (key : Key)                 -- `Registry::delete_*(key)` called from outside `Recency`
+  | clear                                      -- `Registry::clear()`
+  | stale (k : Kind) (key : Key) (gen : Nat)   -- `should_store_*(key, gen, registry)`: one loop iteration of a second
+                                               -- observer, `gen` read from the handle in its (possibly stale) snapshot
+  deriving Repr
+
+def xstep (s : St) : XOp → St
+  | .base op => step s op
+  | .del k key => { s with metrics := (deleteMetric s.metrics (k, key)).1 }
+  | .clear => { s with metrics := [] }
+  | .stale k key g => (shouldStore s k key g).1
+
+def xrun (s : St) (xs : List XOp) : St := xs.foldl xstep s
+
+/-- the operations of a history that `Recency` itself takes part in -/
+def strip : List XOp → List Op
+  | [] => []
+  | .base op :: rest => op :: strip rest
+  | _ :: rest => strip rest
+
 end MetricsVerif.Recency
